@@ -3,6 +3,7 @@
 package proxy
 
 import (
+	stdcontext "context"
 	"encoding/json"
 	"errors"
 	"fmt"
@@ -43,6 +44,7 @@ type c08PReq struct {
 	K      int   `json:"k"` // 0 backend answers Status (not a failure code), 1 transport error, 2 answers Status (a failure code)
 	Status int   `json:"status"`
 	Body   int   `json:"body"` // request shape: 0 no body, 1 buffered body, 2 stream body, 3 stream with empty body
+	Cx     int   `json:"cx"`   // request context: 0 live, 1 cancelled before, 2 cancelled while the server is contacted, 3 deadline exceeded
 }
 
 type c08PIn struct {
@@ -91,7 +93,23 @@ func c08PBreaker(sp *ServerPool) *libcb.CircuitBreaker {
 	return v.Field(0).Interface().(*libcb.CircuitBreaker)
 }
 
-func c08PRequest(shape int) *httpprot.Request {
+func c08PContext(cx int) (ctx stdcontext.Context, during func(), done func()) {
+	switch cx {
+	case 1:
+		c, cancel := stdcontext.WithCancel(stdcontext.Background())
+		cancel()
+		return c, func() {}, func() {}
+	case 2:
+		c, cancel := stdcontext.WithCancel(stdcontext.Background())
+		return c, cancel, cancel
+	case 3:
+		c, cancel := stdcontext.WithDeadline(stdcontext.Background(), time.Now().Add(-time.Hour))
+		return c, func() {}, cancel
+	}
+	return stdcontext.Background(), func() {}, func() {}
+}
+
+func c08PRequest(shape int, rctx stdcontext.Context) *httpprot.Request {
 	var stdr *http.Request
 	switch shape {
 	case 0:
@@ -101,6 +119,7 @@ func c08PRequest(shape int) *httpprot.Request {
 	default:
 		stdr, _ = http.NewRequest(http.MethodPost, "http://c08.example/x", strings.NewReader("0123456789"))
 	}
+	stdr = stdr.WithContext(rctx)
 	req, _ := httpprot.NewRequest(stdr)
 	max := int64(0)
 	if shape >= 2 {
@@ -158,8 +177,10 @@ func c08PRun(in c08PIn) (obs c08PObs) {
 	defer func() { fnSendRequest = saved }()
 	var cur c08PReq
 	contacted := 0
+	during := func() {}
 	fnSendRequest = func(r *http.Request, client *http.Client) (*http.Response, error) {
 		contacted++
+		during()
 		if cur.K == 1 {
 			return nil, errors.New("c08: connection refused")
 		}
@@ -176,7 +197,10 @@ func c08PRun(in c08PIn) (obs c08PObs) {
 					step.Result = "panic"
 				}
 			}()
-			req := c08PRequest(rq.Body)
+			rctx, dur, done := c08PContext(rq.Cx)
+			during = dur
+			defer done()
+			req := c08PRequest(rq.Body, rctx)
 			step.Stream = req.IsStream()
 			ctx := context.New(tracing.NoopSpan)
 			ctx.SetRequest(context.DefaultNamespace, req)
@@ -201,6 +225,7 @@ func c08PGen(r *vfRand, adv bool) c08PIn {
 	p.MaxWait = []int64{0, 0, 1_000_000_000}[r.Intn(3)]
 	in := c08PIn{Pol: p, T0: int64(r.Intn(1_000_000_000)), Retry: r.PickInt(0, 0, 2, 3, 1)}
 	pstream := r.PickInt(0, 30, 60, 100)
+	pcx := r.PickInt(0, 0, 30, 60, 100)
 	n := r.Range(3, 30)
 	if adv {
 		n = r.Range(20, 80)
@@ -210,6 +235,9 @@ func c08PGen(r *vfRand, adv bool) c08PIn {
 		q := c08PReq{Status: r.PickInt(200, 204, 404), Body: r.Intn(2)}
 		if r.Chance(pstream, 100) {
 			q.Body = 2 + r.Intn(2)
+		}
+		if r.Chance(pcx, 100) {
+			q.Cx = r.Range(1, 3)
 		}
 		switch r.Intn(6) {
 		case 0:
